@@ -6,9 +6,13 @@
    file (C03), the round trip of the whole data section — which carries every x, y, z, RESIDUAL and
    analog sample — of every scalar, and of every parameter record and group record (Proofs_Record.v: Parameter::read
    on the bytes of Parameter::write returns the parameter, for every well-formed parameter of every type and
-   dimension); the remaining stages (chaining of the records by the walker, header fields) are validated, not yet proved. *)
+   dimension), and of the whole PARAMETER SECTION: Parameters::Parameters(file) on the file written by c3d::write returns
+   the prologue and the tree (names upper-cased, POINT:DATA_START holding the first data block), for every tree of
+   well-formed groups and parameters without placeholder groups (C01_parameter_section; hypotheses met by the new object,
+   C01_parameter_section_nonvacuous).  Remaining, validated but not proved: the 24 header fields, and the composition
+   into load (save s). *)
 From Coq Require Import Lia ZifyN.
-From EZ Require Import Base Bytes Types Api Enc Dec Float32 Run Proofs_Bytes Proofs_Codec Proofs_Section Proofs_Record.
+From EZ Require Import Base Bytes Types Api Enc Dec Float32 Run Proofs_Bytes Proofs_Codec Proofs_Section Proofs_Record Proofs_Chain Proofs_ChainW.
 Local Open Scope N_scope.
 
 (* the frames of a saved object come back bit for bit: the data section written by save is read by the
@@ -49,6 +53,54 @@ Theorem C01_partial_group_record : forall g old st r,
         adv st (length (g_name g) + 2 + (1 + length (g_desc g))) r).
 Proof. exact read_group_written. Qed.
 Print Assumptions C01_partial_group_record.
+
+(* THE PARAMETER SECTION: write, then read *)
+Theorem C01_parameter_section : forall h pr gs sec blocks hb data st,
+  ok_tree gs -> (nds (recs_of gs 1) <= 1)%nat ->
+  (forall g, In g gs -> is_placeholder g = false /\ group_ok g) ->
+  section_bytes pr gs = Ok (sec, blocks) -> blocks + 1 < 256 -> ps_start pr = 1 ->
+  Forall wf_item (items_v gs 1 (blocks + 1)) ->
+  h_paddr h = 2 -> h_zeros h = 0 -> length hb = 512%nat ->
+  st_fail st = false -> st_file st = hb ++ sec ++ data ->
+  exists st', read_parameters h st = Ok ((mkPro 1 80 (blocks - 1) 84, map (canon_g (blocks + 1)) gs), st').
+Proof. exact read_parameters_written. Qed.
+Print Assumptions C01_parameter_section.
+
+(* the written section is the prologue, the records of the tree in order, and 1..512 bytes of zero padding *)
+Theorem C01_section_is_its_records : forall pr gs sec blocks,
+  ok_tree gs -> (nds (recs_of gs 1) <= 1)%nat -> section_bytes pr gs = Ok (sec, blocks) -> blocks + 1 < 256 ->
+  exists pad, 1 <= pad <= 512 /\
+    sec = [low8 (Z.of_N (ps_start pr)); 80; low8 (Z.of_N (blocks - 1)); 84]
+          ++ concat (map item_bytes (items_v gs 1 (blocks + 1))) ++ repeat 0 (N.to_nat pad).
+Proof. exact section_canonical. Qed.
+Print Assumptions C01_section_is_its_records.
+
+(* non-vacuity: the new object meets every hypothesis of C01_parameter_section (its section has 2 blocks) *)
+Ltac wfp := unfold wf_param, name_ok, desc_ok, dims_ok, typed_ok, str_ok, no_nul, int16, int8, wf32, byte_ok, LIMC; cbn;
+  repeat split; try lia; try discriminate; repeat constructor; try lia; try discriminate.
+Example C01_parameter_section_nonvacuous :
+  ok_tree (groups init) /\ (exists sec, section_bytes (pro init) (groups init) = Ok (sec, 2)) /\
+  (nds (recs_of (groups init) 1) <= 1)%nat /\
+  (forall g, In g (groups init) -> is_placeholder g = false /\ group_ok g) /\
+  Forall wf_item (items_v (groups init) 1 3) /\ ps_start (pro init) = 1.
+Proof.
+  split.
+  { intros g Hg Pl. cbn in Hg.
+    repeat (destruct Hg as [<-|Hg]; [split; [unfold wf_group_hdr, name_ok, desc_ok, no_nul; cbn; repeat split; try lia; repeat constructor; discriminate|
+       intros p Hp; cbn in Hp; repeat (destruct Hp as [<-|Hp]; [unfold ok_param; cbn; first [split; reflexivity | wfp]|]); destruct Hp]|]).
+    destruct Hg. }
+  split; [eexists; vm_compute; reflexivity|].
+  split; [vm_compute; lia|]. split.
+  - intros g Hg. cbn in Hg.
+    repeat (destruct Hg as [<-|Hg]; [split; [reflexivity|split; [cbn; repeat constructor; cbn; intuition discriminate|intros p Hp; cbn in Hp; repeat (destruct Hp as [<-|Hp]; [discriminate|]); destruct Hp]]|]).
+    destruct Hg.
+  - split; [|reflexivity].
+    cbn [items_v init groups init_groups is_placeholder g_name g_params nlen length N.of_nat N.eqb andb map app item_of_param is_ds].
+    repeat (apply Forall_cons); try apply Forall_nil;
+      (cbn; first [ split; [lia|unfold wf_group_hdr, name_ok, desc_ok, no_nul; cbn; repeat split; try lia; repeat constructor; discriminate]
+                  | split; [lia|split; [wfp|cbn; lia]] ]).
+Qed.
+Print Assumptions C01_parameter_section_nonvacuous.
 
 (* non-vacuity: parameters of each type are well formed (a 2 x 3 string matrix, a 2 x 2 integer matrix, a float scalar) *)
 Example C01_wf_param_nonvacuous :
